@@ -669,9 +669,25 @@ pub fn part_registers(tier: Tier, prop: &str) -> Part {
             }
         };
         let native = std::process::Command::new(&exe).output().map(|o| String::from_utf8_lossy(&o.stdout).to_string()).unwrap_or_default();
-        for entry in ["keep", "rec", "mixed", "narrow"] {
-            let cmds = vec![json!({"op": "break_fn", "name": entry}), json!({"op": "start"}), json!({"op": "regwalk", "max_steps": 1500, "until_fn": "main"}), json!({"op": "remove_fn", "name": entry}), json!({"op": "continue"})];
-            let run = crate::mt::session(&exe, |obs| cmds.get(obs.len()).cloned(), Duration::from_secs(120), cmds.len());
+        let entries = ["keep", "rec", "mixed", "narrow"];
+        let cmds_for = |entry: &str| vec![json!({"op": "break_fn", "name": entry}), json!({"op": "start"}), json!({"op": "regwalk", "max_steps": 1500, "until_fn": "main"}), json!({"op": "remove_fn", "name": entry}), json!({"op": "continue"})];
+        let mut runs: std::collections::VecDeque<crate::mt::Run> = {
+            use rayon::prelude::*;
+            let pool = rayon::ThreadPoolBuilder::new().num_threads(4).build().unwrap();
+            pool.install(|| {
+                entries
+                    .par_iter()
+                    .map(|entry| {
+                        let cmds = cmds_for(entry);
+                        crate::mt::session(&exe, |obs| cmds.get(obs.len()).cloned(), Duration::from_secs(120), cmds.len())
+                    })
+                    .collect::<Vec<_>>()
+                    .into()
+            })
+        };
+        for entry in entries {
+            let cmds = cmds_for(entry);
+            let run = runs.pop_front().unwrap();
             let replay = json!({"engine": "mt", "exe": exe, "commands": cmds});
             part.traces_validated += 1;
             if run.hang_at.is_some() || run.crashed.is_some() || run.obs.len() < 5 {
